@@ -31,28 +31,29 @@ def cases(tier, seed):
     tables = [gen.binnify([4, 4], 2), gen.binnify([5, 3, 2], 2), gen.table_from_edges([[0, 1, 4], [0, 3, 5]]),
               gen.table_from_edges([[0, 3], [0, 2], [0, 4]]), gen.binnify([6], 2)]
     for h in range(220 if tier == "quick" else 4000):
-        table = tables[h % len(tables)]
+        F_h = gen.feat(101, h)          # independent feature choices per case (gen.feat)
+        table = tables[F_h("len_tables@33", len(tables))]
         nch = 1 + max(t[0] for t in table)
         names = rng.sample(POOL, nch)
-        mode = "symm" if h % 3 else "square"
+        mode = "symm" if F_h("m3@36", 3) else "square"
         px = gen.random_store(rng, len(table), mode, maxval=9)
         chain = []
         cur = list(names)
-        for _ in range(1 + h % 3):
+        for _ in range(1 + F_h("m3@40", 3)):
             ms = admissible_maps(cur, rng, 1)
             if not ms:
                 break
             m = ms[0]
-            if h % 11 == 0:
+            if F_h("m11@45", 11) == 0:
                 m["not_a_chromosome"] = "whatever"        # names missing from the file are ignored
             chain.append([[a, b] for a, b in m.items()])
             cur = [m.get(x, x) for x in cur]
-        if h % 9 == 4 and nch >= 2:
+        if F_h("m9@49", 9) == 4 and nch >= 2:
             chain = [[[names[0], names[1]], [names[1], names[0]]]]   # a swap
         yield "rn.rename", {"table": table, "names": names, "mode": mode, "px": px, "renames": chain,
-                            "encoding": "enum" if h % 2 == 0 else "int",
+                            "encoding": "enum" if F_h("m2@52", 2) == 0 else "int",
                             # at the file root / in a nested group, alone or beside another collection with the same names
-                            "group": ["/", "/resolutions/2", "/", "/a/b"][h % 4], "sibling": h % 8 in (1, 2, 7)}
+                            "group": ["/", "/resolutions/2", "/", "/a/b"][F_h("m4@54", 4)], "sibling": F_h("m8@54", 8) in (1, 2, 7)}
 
 
 def many_cases(tier):
